@@ -25,7 +25,8 @@ Record cobs := mkCObs
   { ob_go_compiles : bool ;
     ob_go : option json ;        (* json.Marshal(NewX()); None: not available (package dropped, panic) *)
     ob_py_import : bool ;
-    ob_py : option json }.       (* json.dumps(X(), cls=JSONEncoder); None: exception / module not imported *)
+    ob_py : option json ;        (* json.dumps(X(), cls=JSONEncoder); None: exception / module not imported *)
+    ob_py_again : option json }. (* the same for a second X() built after the lists / dicts of a first X() were mutated *)
 
 Definition ccase := (schemas * schemas * schemas * string * string * string * string * list string * cobs * list decl)%type.
 (*                    go ctx    py ctx    pre-chain  fmt      pkg      go name  py name  path in the pre-chain IR:
@@ -70,6 +71,15 @@ Definition pf_agree (c : ccase) : bool :=
                           | Some a, Some b => json_eq a b
                           | _, _ => false
                           end)%bool) ds.
+(* a fresh default object does not depend on what happened to an earlier one (the model's constructors are pure
+   functions: a difference is at once a property failure and a mismatch) *)
+Definition pf_py_again (c : ccase) : bool :=
+  let '(_, _, _, _, _, _, _, _, o, _) := c in
+  match ob_py o, ob_py_again o with
+  | Some a, Some b => negb (json_eq a b)
+  | Some _, None => true
+  | None, _ => false
+  end.
 Definition has_decl (c : ccase) : bool :=
   let '(_, _, _, _, _, _, _, _, _, ds) := c in existsb relevant ds.
 
